@@ -47,6 +47,13 @@ REQS: dict[str, dict[str, Any]] = {
         "mismatch": [bytes.fromhex("5001003201f4"), bytes.fromhex("7f2712")],
         "malformed": [bytes.fromhex("7e"), bytes.fromhex("7f3e")],
     },
+    "rd": {
+        # RequestDownload: the positive reply carries a length-format nibble followed by that many length bytes
+        "sid": 0x34,
+        "pos": bytes.fromhex("74200ffa"),
+        "mismatch": [bytes.fromhex("7520 0ffa".replace(" ", "")), bytes.fromhex("7f2231")],
+        "malformed": [bytes.fromhex("74104124"), bytes.fromhex("7400"), bytes.fromhex("74")],
+    },
     "raw": {
         "sid": 0xBA,
         "pos": bytes.fromhex("fa0102"),
@@ -69,6 +76,8 @@ def make_request(kind: str) -> service.UDSRequest:
         return service.DiagnosticSessionControlRequest(3)
     if kind == "tp":
         return service.TesterPresentRequest()
+    if kind == "rd":
+        return service.RequestDownloadRequest(memory_address=0x1000, memory_size=0x100, compression_method=0, encryption_method=0)
     return service.RawRequest(bytes.fromhex("ba0102"))
 
 
@@ -310,6 +319,11 @@ def judge(plan: dict[str, Any], events: list[list[Any]], outcome: tuple[str, Any
                 return
             if phase == "first_read" and d.get("timeout") is None:
                 violation(res, "C04/timeout", "C04/timeout:first-read-without-timeout", f"attempt {i}: the transport was read without a timeout (effective request timeout {T})")
+                return
+            if phase == "pending" and (d.get("timeout") is None or abs(d["timeout"] - POLL) > 1e-9):
+                # the silence limit max(timeout, 20 s) is counted in polls of POLL seconds: a poll of another length
+                # moves the limit (a reply that arrives within the limit would be dropped, or the wait would never end)
+                violation(res, "C04/timeout", "C04/timeout:pending-poll-interval", f"attempt {i}: while waiting after a responsePending the transport was read with timeout {d.get('timeout')}, the poll interval is {POLL} s")
                 return
             continue
         if kind == "read_cancelled":
